@@ -85,7 +85,8 @@ class Fmt:
         if r[0] != b"ok":
             return (_txt(r[0]), _txt(r[1]))
         leaves = [{"name": l[0].decode("utf-8", "replace"), "type": l[1], "tlen": l[2], "maxdef": l[3],
-                   "conv": (l[4][0] if l[4] else None), "logical": (tuple(l[5]) if l[5] else None)} for l in r[1]]
+                   "conv": (l[4][0] if l[4] else None), "logical": (tuple(l[5]) if l[5] else None),
+                   "scale": (l[6][0] if len(l) > 6 and l[6] else None), "precision": (l[7][0] if len(l) > 7 and l[7] else None)} for l in r[1]]
         rgs = [[[(None if c == [] else c) for c in col] for col in rg] for rg in r[2]]
         return ("ok", leaves, rgs)
 
@@ -101,6 +102,8 @@ class Fmt:
             v2 = self.validate(data, False, tbl)
             if v2[0] == "ok":
                 lenient, v = True, v2
+            elif v2[0] == "bad" and v2[1:] != v[1:]:
+                v = ("bad", "%s (lenient run-length reading: %s)" % (v[1], v2[1]))
         out = {"verdict": v[0], "why": v[1] if len(v) > 1 else None, "lenient": lenient}
         if v[0] == "ok":
             d = self.decode(data, not lenient, tbl)
@@ -262,7 +265,7 @@ def compare_column(exp, got, t, what):
 # ---------------------------------------------------------------------------------------------
 # spec encoder (C03): laid-out file descriptions as plain Python data (JSON-able), -> pqref s-expression
 #   lfile = {"leaves": [leaf], "rgs": [[chunk per leaf]], "created_by": str|None}
-#   leaf  = {"name", "type", "tlen", "optional", "conv", "logical": thrift tree | None}
+#   leaf  = {"name", "type", "tlen", "optional", "conv", "logical": thrift tree | None, "scale", "precision": int | None}
 #   chunk = {"codec": int, "stats": bool, "items": [item]}
 #   item  = {"dict": enc, "vals": [value]} | {"v2": bool, "n": int, "def": [run], "store": store, "iscomp": None|bool, "trail": hex}
 #   run   = ["r", count, v] | ["b", [v...]]
@@ -293,7 +296,8 @@ def _store(s):
 def lfile_sx(lf):
     leaves = [[l["name"].encode(), l["type"], l["tlen"], bool(l["optional"]),
                [] if l.get("conv") is None else [l["conv"]],
-               [] if l.get("logical") is None else [l["logical"]]] for l in lf["leaves"]]
+               [] if l.get("logical") is None else [l["logical"]],
+               [] if l.get("scale") is None else [l["scale"]], [] if l.get("precision") is None else [l["precision"]]] for l in lf["leaves"]]
     rgs = []
     for rg in lf["rgs"]:
         chunks = []
@@ -338,3 +342,64 @@ def denote(pq, lf):
         return None
     rgs = [[[(None if c == [] else c) for c in col] for col in rg] for rg in r[2]]
     return rgs
+
+
+# ---------------------------------------------------------------------------------------------
+# laid-out file description -> Gallina term (for the extraction-vs-kernel agreement check)
+
+def _g_bytes(b):
+    return "[" + "; ".join(str(x) for x in b) + "]%N"
+
+
+def _g_val(v):
+    return "VBin %s" % _g_bytes(bytes.fromhex(v["b"])) if isinstance(v, dict) else "VNum %d%%N" % v
+
+
+def _g_list(items):
+    return "[" + "; ".join(items) + "]"
+
+
+def _g_run(r):
+    return "RLE %d%%N %d%%N" % (r[1], r[2]) if r[0] == "r" else "BP %s" % _g_list("%d%%N" % v for v in r[1])
+
+
+def _g_store(st):
+    k = st[0]
+    if k == "plain":
+        return "SPlain %s" % _g_list(_g_val(v) for v in st[1])
+    if k == "dictidx":
+        return "SDict %d%%Z %d%%N %s" % (st[1], st[2], _g_list(_g_run(r) for r in st[3]))
+    if k == "rlebool":
+        return "SRleBool %s" % _g_list(_g_run(r) for r in st[1])
+    if k == "delta":
+        return "SDelta %d%%N %d%%N %s" % (st[1], st[2], _g_list("(%d)%%Z" % z for z in st[3]))
+    return "SRaw %d%%Z %s" % (st[1], _g_bytes(bytes.fromhex(st[2])))
+
+
+PTYPE_NAMES = ["BOOLEAN", "INT32", "INT64", "INT96", "FLOAT", "DOUBLE", "BYTE_ARRAY", "FLBA"]
+
+
+def lfile_gallina(lf):
+    """Gallina term of type Enc.lfile (logical types are dropped: None)"""
+    leaves = _g_list("{| ll_name := %s; ll_type := %s; ll_tlen := %d%%N; ll_optional := %s; ll_conv := %s; ll_logical := None; ll_scale := %s; ll_prec := %s |}" % (
+        _g_bytes(l["name"].encode()), PTYPE_NAMES[l["type"]], l["tlen"], "true" if l["optional"] else "false",
+        "None" if l.get("conv") is None else "Some %d%%Z" % l["conv"],
+        "None" if l.get("scale") is None else "Some %d%%Z" % l["scale"],
+        "None" if l.get("precision") is None else "Some %d%%Z" % l["precision"]) for l in lf["leaves"])
+    rgs = []
+    for rg in lf["rgs"]:
+        chunks = []
+        for c in rg:
+            items = []
+            for it in c["items"]:
+                if "dict" in it:
+                    items.append("LDict %d%%Z %s" % (it["dict"], _g_list(_g_val(v) for v in it["vals"])))
+                else:
+                    ic = it.get("iscomp")
+                    items.append("LData {| lp_v2 := %s; lp_nvals := %d%%N; lp_def := %s; lp_store := %s; lp_iscomp := %s; lp_trail := %s |}" % (
+                        "true" if it["v2"] else "false", it["n"], _g_list(_g_run(r) for r in it["def"]), _g_store(it["store"]),
+                        "None" if ic is None else ("Some true" if ic else "Some false"), _g_bytes(bytes.fromhex(it.get("trail", "")))))
+            chunks.append("{| lc_codec := %d%%Z; lc_items := %s; lc_stats := %s |}" % (c["codec"], _g_list(items), "true" if c["stats"] else "false"))
+        rgs.append(_g_list(chunks))
+    cb = lf.get("created_by")
+    return "{| l_leaves := %s; l_rgs := %s; l_created_by := %s |}" % (leaves, _g_list(rgs), "None" if cb is None else "Some %s" % _g_bytes(cb.encode()))
